@@ -100,7 +100,9 @@ Lemma e_cache_expire k id : NL (cache_expire cfg k id).
 Proof. unfold cache_expire. ep. Qed.
 Lemma e_cache_try_get k id roots : NL (cache_try_get cfg k id roots).
 Proof. unfold cache_try_get. ep. Qed.
-Local Hint Resolve e_cache_get e_cache_put e_cache_created e_cache_expire e_cache_try_get : ep.
+Lemma e_cache_purge k id : NL (cache_purge k id).
+Proof. unfold cache_purge. ep. Qed.
+Local Hint Resolve e_cache_get e_cache_put e_cache_created e_cache_expire e_cache_purge e_cache_try_get : ep.
 
 Lemma e_select_init o r : NL (select_init o r).
 Proof. unfold select_init. ep. Qed.
@@ -122,7 +124,7 @@ Lemma e_so_expire o : NL (so_expire cfg o).
 Proof. unfold so_expire. ep. Qed.
 Lemma e_so_read o c : NL (so_read o c).
 Proof. unfold so_read. ep. Qed.
-Lemma e_so_destroy o : NL (so_destroy cfg o).
+Lemma e_so_destroy o : NL (so_destroy o).
 Proof. unfold so_destroy. ep. Qed.
 Lemma e_so_create k kvs : NL (so_create cfg k kvs).
 Proof. unfold so_create. ep. Qed.
